@@ -292,6 +292,11 @@ JudgeTransfer(tr, T, ev) ==
        \A k \in 1..NLw(tr) : \A i \in 1..Len(post.vol[k]) : post.vol[k][i] > 0 => pc[k][i] = rb.comp[k][i]),
     Cl("C01.robotcomp", F.robot /\ F.comp /\ cok /\ ev.cs /\ live /\ valid /\ ok /\ rb.err = "" /\ ~rb.unknown,
        \A k \in 1..NLw(tr) : \A i \in 1..Len(post.vol[k]) : post.vol[k][i] > 0 => pc[k][i] = rb.comp[k][i]),
+    \* which components are present (whatever their fractions; no limit on the dilution depth): replaying the records on
+    \* the supports of the logged pre-state gives the logged supports
+    Cl("C05.support", F.robot /\ F.comp /\ live /\ valid /\ ok /\ rb.err = "" /\ ~rb.unknown,
+       LET rs == RunSup(T, vol, [k \in 1..NLw(tr) |-> [i \in 1..Len(comp[k]) |-> CNames(comp[k][i])]], ev.recs) IN
+       \A k \in 1..NLw(tr) : \A i \in 1..Len(post.vol[k]) : post.vol[k][i] > 0 => CNames(pc[k][i]) = rs.sup[k][i]),
     Cl("C05.conserved", F.comp /\ cok /\ ev.cs /\ valid /\ ok,
        LET names == NamesOf(comp, a.src) \cup NamesOf(comp, a.dst) \cup NamesOf(pc, a.src) \cup NamesOf(pc, a.dst)
            Tot(v, c, nm) == IF same THEN Amount(v[a.src], c[a.src], nm)
